@@ -442,6 +442,23 @@ func genCommissionValidate(r *rand.Rand, n int) []Rec {
 	return out
 }
 
+// wideString: a string of exactly n bytes made of multi-byte characters (3-byte ones, padded with a 2-byte one and ASCII)
+func wideString(n int) string {
+	var b strings.Builder
+	for n >= 3 && n != 4 {
+		b.WriteString("验")
+		n -= 3
+	}
+	for n >= 2 {
+		b.WriteString("é")
+		n -= 2
+	}
+	if n == 1 {
+		b.WriteString("a")
+	}
+	return b.String()
+}
+
 func lensChoice(r *rand.Rand, max int) int {
 	return pick(r, []int{0, 0, 1, 5, max - 1, max, max, max + 1, max + 50})
 }
@@ -475,7 +492,13 @@ func genCreateValidate(r *rand.Rand, n int) []Rec {
 		if hasPK {
 			anyPK = pkAny
 		}
+		// lengths are byte lengths (what x/staking limits); a third of the cases spell the fields with two- and
+		// three-byte characters, so that a byte length and a character count differ
+		wide := r.Intn(3) == 0
 		mk := func(n int) string { return strings.Repeat("a", n) }
+		if wide {
+			mk = wideString
+		}
 		pm := poa.MsgCreateValidator{
 			Description:      poa.Description{Moniker: mk(lens[0]), Identity: mk(lens[1]), Website: mk(lens[2]), SecurityContact: mk(lens[3]), Details: mk(lens[4])},
 			Commission:       poa.CommissionRates{Rate: optDec(rate), MaxRate: optDec(mx), MaxChangeRate: optDec(chg)},
